@@ -363,7 +363,9 @@ impl SeqScenario for C04 {
             // outer result variant
             if let (Some(adm), Some(r)) = (admitted_impl, &result) {
                 match (adm, r) {
-                    (false, Outcome::Layer(t)) if t == "Open" => {}
+                    (false, Outcome::Layer(t)) if t == "Open" && !cfg.fallback => {}
+                    // with_fallback: a rejected call is answered by the fallback
+                    (false, Outcome::Ok(r)) if cfg.fallback && r.serial == crate::handle::FALLBACK_SERIAL => {}
                     (false, other) => viols.push(Viol::new("rejected_call_wrong_result", site, format!("call did not reach the inner service but resolved with {other:?}"))),
                     (true, Outcome::Layer(t)) => viols.push(Viol::new("admitted_call_wrong_result", site, format!("call reached the inner service but resolved with layer error {t}"))),
                     (true, _) => {}
@@ -482,7 +484,10 @@ pub fn grid(thorough: bool) -> Vec<CbCfg> {
                                     slow_ms,
                                     slow_rate,
                                     custom_classifier: custom,
-                                    fallback: false,
+                                    // every fifth configuration runs the breaker converted with
+                                    // with_fallback(..): the manual overrides, views and the state
+                                    // machine are implemented a second time on that type
+                                    fallback: v.len() % 5 == 3,
                                     fallback_gated: false,
                                     classifier_first,
                                     // every third configuration starts from the fast_fail()
